@@ -18,7 +18,7 @@ INFO = {
                          'symbolic_values': 'one or two adjacent leaf fields symbolic at a time: uint [0,2^64) or its '
                                             'fixed width, bytes 0..3, names 0..2 components, repeated/map 0..2 entries; text '
                                             'from 6 concrete strings (not solver variables)'},
-               'thorough': {'models': '+ 200 generated classes'}},
+               'thorough': {'models': '+ 100 generated classes'}},
     'outside': ['more than two simultaneously symbolic leaves', 'text strings as solver variables',
                 'byte strings of 65536+ bytes (C01 covers payload lengths)'],
     'assumptions': ['model classes are concrete programs (enumerated, not solver-quantified)'],
@@ -129,7 +129,7 @@ def _models(tier, seed):
             out.append(('shipped', k, cls))
     for k, cls in mg.fixed_synth().items():
         out.append(('fixed', k, cls))
-    n = 12 if tier == 'quick' else 212
+    n = 12 if tier == 'quick' else 112
     for i in range(n):
         cls, _ = mg.synth_class(seed, i)
         out.append(('gen', i, cls))
